@@ -67,6 +67,8 @@ var modelledOps = map[string]bool{
 	"CloneEnum": true, "CloneEval": true,
 	// size of a message, type of a bus (MsgResize / BusSetType)
 	"MsgUpdateSize": true, "BusSetType": true,
+	// attribute definitions with their kind and range (NewAttr / AttrClone): the value check of Assign is derived in the model
+	"NewAttrString": true, "NewAttrInt": true, "NewAttrFloat": true, "NewAttrEnum": true, "CloneAttr": true,
 }
 
 // goName: the Go method an operation stands for (call site in signatures and messages)
